@@ -9,6 +9,7 @@ function of its children, which is why the result does not depend on the order i
 dask executes sibling tasks (the harness checks that on the real graphs).
 -/
 import OdcGeo.Lemmas.C06
+import OdcGeo.Model.C06AsFound
 
 set_option linter.unusedVariables false
 set_option linter.unusedSimpArgs false
@@ -210,6 +211,42 @@ so an execution has exactly as many steps as the graph has tasks. -/
 theorem schedule_step_count (cfg : Cfg) (total : Nat) {s s' : Run α × List (Part α)}
     (h : Step cfg total s s') : s'.1.todo + 1 = s.1.todo :=
   step_todo cfg total h
+
+/-! ### the code as found violated the full statement (replays of F7, F8, F9) -/
+
+
+def bytes (n : Nat) : List Nat := List.replicate n 7
+
+/-- F7 as found: final partition with two 30-byte chunks, `spill_sz = 20`, `min_write_sz = 10`,
+one write credit: the credit is spent after the first chunk and the final flush fails. -/
+theorem cex_final_two_chunks_as_found :
+    (match AsFound.appendChunksOp true ⟨10, 1, 100⟩ 20 (mkChunk 2 1 true 10 : Chunk Nat)
+        [(bytes 30, 0), (bytes 30, 1)] with
+     | .ok (c, _) => (match flush ⟨10, 1, 100⟩ c (some 1) with | .error .assertion => true | _ => false)
+     | .error _ => false) = true := by decide
+
+/-- … and the repaired `_mpu_append_chunks_op` on the same input flushes fine. -/
+theorem cex_final_two_chunks_repaired :
+    (match appendChunksOp (some ⟨10, 1, 100⟩) 20 (mkChunk 2 1 true 10 : Chunk Nat)
+        [(bytes 30, 0), (bytes 30, 1)] with
+     | .ok (c, _) => (match flush ⟨10, 1, 100⟩ c (some 1) with | .ok _ => true | _ => false)
+     | .error _ => false) = true := by decide
+
+/-- F8 as found: `spill_sz = 1 < min_write_sz = 10`, two write credits: a 5-byte part is written in
+the middle of the stream. -/
+theorem cex_small_spill_as_found :
+    (match AsFound.appendChunksOp false ⟨10, 1, 100⟩ 1 (mkChunk 2 2 false 10 : Chunk Nat)
+        [(bytes 25, 0), (bytes 25, 1)] with
+     | .ok (_, ws) => ws.any (fun p => decide (p.data.length < 10))
+     | .error _ => false) = true := by decide
+
+/-- F9 as found: `leftPartId = 1` with a writer whose `min_part = 5` is below the allowed range,
+the repaired finaliser passes `min_part`. -/
+theorem cex_min_part_as_found :
+    (match flush ⟨10, 5, 100⟩ ({ (mkChunk 6 1 false 10 : Chunk Nat) with data := bytes 30 }) (some 1) with
+     | .ok (ws, _) => ws.any (fun p => decide (p.id < 5))
+     | .error _ => false) = true := by decide
+
 
 /-! ### non-vacuity and a concrete run -/
 
